@@ -27,10 +27,10 @@ nothing is committed), runs the repository's own tests (they pass in every case:
 invisible to them), runs the quick check of the property named in §7 and expects exit 1 with a
 VIOLATION line, then restores /repo; `tools/revert_hist.sh` does the equivalent for fourteen
 commits that can no longer be reverted on HEAD, by comparing /repo's tree at the commit with the
-tree at its parent. Result: all 60 repairs are detected when removed
+tree at its parent. Result: all 61 repairs are detected when removed
 (`selftest/revert_report.txt`, `selftest/revert_hist_report.txt`).
 
-**(b) %d changes written by independent sub-agents** in nine rounds of 40. Each agent received only
+**(b) %d changes written by independent sub-agents** in eleven rounds (nine of 40, one of 40 more with one seed pair per property, one of 24 for the twelve properties whose round-10 seeds had been missed). Each agent received only
 the text of one property and a scratch worktree (nothing from /verif; from round 2 on also a
 two-line summary of the ideas already used for that property, so that it would look elsewhere;
 from round 5 on also the request to make the change correct for every input of normal size and
@@ -41,7 +41,7 @@ re-confirmed every one in a scratch worktree (suite passes with the change, demo
 demo passes without it) before keeping it as `/verif/seeded/<id>-<k>/` (`patch.diff`,
 `demo_test.go`, `notes.md`, `meta.json`). Detected by the property's quick check as it stood
 when the seed arrived: round 1 27/40, round 2 23/40, round 3 29/40, round 4 25/40, round 5
-12/40, round 6 14/40, round 7 15/40, round 8 20/40, round 9 16/40 (181 of 360 overall) - the agents were told what had been tried, so each round looked
+12/40, round 6 14/40, round 7 15/40, round 8 20/40, round 9 16/40, round 10 22/40, round 11 12/24 (215 of 424 overall) - the agents were told what had been tried, so each round looked
 where the checks had not yet been shown to look. Every miss was analysed and the check
 strengthened *in general terms* (a new family, alphabet member, leg or oracle, never a
 special case for the seed); after that %d of %d are detected by the quick check of the
@@ -53,6 +53,7 @@ reported: two break no listed property (C12-9 and C12-18, within C04's stated to
 reaching an operator) that the `fix:` commits of §7 have closed, so that on the current tree the
 change no longer breaks its property and its own demonstration passes (`outside_claim` in their
 `meta.json` names the repair). The unchanged tree stays silent.
+The whole table was last re-run after round 9; the legs of rounds 10 and 11 were added to the checks without changing an existing leg, alphabet or oracle (§8.4), the 64 new seeds and the three re-based patches were run one by one (`tools/seed_run.sh`), and the eighteen older C09 seeds were re-run because the explorer now gives a scenario up after three stalled executions.
 `tools/seed_all.sh` re-runs the whole table in a scratch mirror (`/tmp/ev`, so /repo and
 /verif/evidence are not touched); patches that touch lines changed by later `fix:` commits
 were re-based (the delivered patch is kept as `patch.orig.diff`).
